@@ -80,7 +80,9 @@ Fixpoint desugar (e : expr) : gt :=
 Inductive robs := ROk (g : gt) | RErr | RBad.
 Definition robs_is (r : robs) (g : gt) : bool := match r with ROk g' => gt_eqb g g' | _ => false end.
 
-Record case := { wfclaim : bool; tight : bool; src : expr; rtoks : list tok; real : robs }.
+(* tabclaim: the source is NOT well-parenthesised in the Spec's sense (e.g. an unparenthesised prefix operator as the
+   operand of `**`), but the generator states which tree the table dictates for it: clause 4 is applied to that tree *)
+Record case := { wfclaim : bool; tabclaim : bool; tight : bool; src : expr; rtoks : list tok; real : robs }.
 
 (* failing clause numbers:
    1 the generator claimed a well-parenthesised source that is not (driver error)
@@ -97,4 +99,4 @@ Definition check_case (c : case) : list nat :=
    | TopUnsup => [9]
    | TopFuel => [3]
    end) ++
-  (if wfclaim c then (if robs_is (real c) (desugar (strip (src c))) then [] else [4]) else []).
+  (if wfclaim c || tabclaim c then (if robs_is (real c) (desugar (strip (src c))) then [] else [4]) else []).
